@@ -210,7 +210,7 @@ def build(img, *, cluster_bits, K=1, version=3, header_length=104, host_shift=0,
     elif span:
         exts.append((data_base * cs, span, "pat", file_id))
     info = {"cell": cell, "size": size_b, "data_base": data_base * cs, "cs": cs, "K": K, "l1_offset": l1_cluster * cs, "l1_size": nl1_real,
-            "end_cluster": max(-(-(e[0] + e[1]) // cs) for e in exts)}
+            "end_cluster": max(-(-(e[0] + e[1]) // cs) for e in exts), "csalt": csalt}
     if want_extents:
         return exts, data_vf, info
     fsize = max(e[0] + e[1] for e in exts)
@@ -234,20 +234,22 @@ def build_with_snapshots(active, snaps, *, cluster_bits, K=1, file_id=0, snap_me
     clusters in a disjoint region of the same file. snap_meta: [(id, name, extra_size)].
     Returns (VirtualFile, [info_active, info_snap0, ...])."""
     cs = 1 << cluster_bits
-    ex_a, _, ia = build(active, cluster_bits=cluster_bits, K=K, file_id=file_id, want_extents=True, **kw)
+    csalt0 = kw.pop("csalt", 0)     # every state of the disk has its own compressed content (unit ids salted per snapshot)
+    kw_a = dict(kw, csalt=csalt0)
+    ex_a, _, ia = build(active, cluster_bits=cluster_bits, K=K, file_id=file_id, want_extents=True, **kw_a)
     base = ia["end_cluster"] + 1
     infos = [ia]
     all_ext = []
     entries = b""
     for k, sn in enumerate(snaps):
-        ex_s, _, isn = build(sn, cluster_bits=cluster_bits, K=K, file_id=file_id, want_extents=True, meta_base=base, **kw)
+        ex_s, _, isn = build(sn, cluster_bits=cluster_bits, K=K, file_id=file_id, want_extents=True, meta_base=base, **dict(kw, csalt=csalt0 + (k + 1) * 0x10000))
         all_ext += [e for e in ex_s if e[0] != 0]  # drop the snapshot build's header
         infos.append(isn)
         sid, sname, xs = (snap_meta[k] if snap_meta else (str(k + 1), f"snap {k + 1}", 16))
         entries += snapshot_entry(isn["l1_offset"], isn["l1_size"], sid, sname, extra_size=xs, disk_size=isn["size"])
         base = isn["end_cluster"] + 1
     snap_off = base * cs
-    ex_a, _, ia = build(active, cluster_bits=cluster_bits, K=K, file_id=file_id, want_extents=True, snap_table=(snap_off, len(snaps)), **kw)
+    ex_a, _, ia = build(active, cluster_bits=cluster_bits, K=K, file_id=file_id, want_extents=True, snap_table=(snap_off, len(snaps)), **kw_a)
     all_ext += ex_a + [(snap_off, len(entries), "bytes", entries)]
     fsize = max(e[0] + e[1] for e in all_ext)
     return VirtualFile(fsize, all_ext, fid=file_id), infos
